@@ -3843,6 +3843,15 @@ reinit:
               goto reinit;
 #endif /* COAP_Q_BLOCK_SUPPORT */
 
+            if (lg_crcv->o_block_option == COAP_OPTION_BLOCK1) {
+              /*
+               * The request's body was sent using Block1 and is not part of
+               * the skeletal PDU: a restarted request would be without it.
+               */
+              coap_log_warn("Data body updated during receipt - request with Block1 body not restarted\n");
+              rcvd->code = COAP_RESPONSE_CODE(402);
+              goto expire_lg_crcv;
+            }
             coap_log_warn("Data body updated during receipt - new request started\n");
             if (!(session->block_mode & COAP_BLOCK_SINGLE_BODY))
               coap_handle_event_lkd(context, COAP_EVENT_PARTIAL_BLOCK, session);
